@@ -52,42 +52,72 @@ def graph_units(e):
     return out
 
 
-def build(Env, case):
+def prepare(Env, case):
+    """-> (constructor, argument list): the call is made by the caller so that the SAME argument
+    objects can be passed twice."""
     ctor = case['ctor']
     if case.get('defaults'):                       # the documented default arguments
-        return Env() if ctor == 'new' else getattr(Env, ctor)()
+        return (Env if ctor == 'new' else getattr(Env, ctor)), []
     a = [pf(x) for x in case.get('args', [])]
     if ctor == 'new':
         curves = case['curves']
         curves = [cv(c) for c in curves] if isinstance(curves, list) else cv(curves)
-        return Env([pf(x) for x in case['levels']], [pf(x) for x in case['times']], curves,
-                   case['rel'], case['loop'], pf(case['offset']))
+        return Env, [[pf(x) for x in case['levels']], [pf(x) for x in case['times']], curves,
+                     case['rel'], case['loop'], pf(case['offset'])]
     if ctor in ('triangle', 'sine'):
-        return getattr(Env, ctor)(*a)
+        return getattr(Env, ctor), a
     if ctor in ('perc', 'linen', 'cutoff', 'asr'):
-        return getattr(Env, ctor)(*a, cv(case['curve']))
+        return getattr(Env, ctor), a + [cv(case['curve'])]
     if ctor == 'dadsr':
-        return Env.dadsr(*a[:6], cv(case['curve']), a[6])
+        return Env.dadsr, a[:6] + [cv(case['curve']), a[6]]
     if ctor == 'adsr':
-        return Env.adsr(*a[:5], cv(case['curve']), a[5])
+        return Env.adsr, a[:5] + [cv(case['curve']), a[5]]
     if ctor == 'step':
-        return Env.step([pf(x) for x in case['levels']], [pf(x) for x in case['times']],
-                        case['rel'], case['loop'], pf(case['offset']))
+        return Env.step, [[pf(x) for x in case['levels']], [pf(x) for x in case['times']],
+                          case['rel'], case['loop'], pf(case['offset'])]
     if ctor == 'xyc':
-        return Env.xyc([[pf(t), pf(l), cv(c)] for t, l, c in case['pts']])
+        return Env.xyc, [[[pf(t), pf(l), cv(c)] for t, l, c in case['pts']]]
     if ctor == 'pairs':
         cs = case['curves']
         cs = None if cs is None else ([cv(c) for c in cs] if isinstance(cs, list) else cv(cs))
-        return Env.pairs([[pf(t), pf(l)] for t, l in case['pts']], cs)
+        return Env.pairs, [[[pf(t), pf(l)] for t, l in case['pts']], cs]
     raise ValueError(ctor)
 
 
+def build(Env, case, reuse=None):
+    """The envelope; `reuse` (a dict) receives what happened to the caller's argument objects: they
+    must be unchanged by the call and a second call with the same objects must give an equal envelope."""
+    import copy
+    fn, args = prepare(Env, case)
+    snap = copy.deepcopy(args)
+    e = fn(*args)
+    if reuse is not None:
+        if repr(args) != repr(snap):
+            reuse['changed'] = [repr(snap), repr(args)]
+        else:
+            def fmt_of(mk):
+                try:
+                    return repr(mk()._envgen_format())
+                except Exception as ex:
+                    return f'E:{type(ex).__name__}: {ex}'
+            f1 = fmt_of(lambda: e)
+            f2 = fmt_of(lambda: fn(*args))
+            if f1 != f2:
+                reuse['second'] = [f1, f2]
+            # the formats asked above are cached on e: take a fresh object for the rest of the case
+            e = fn(*copy.deepcopy(snap))
+    return e
+
+
 def run_case(Env, case):
+    reuse = {}
     try:
-        e = build(Env, case)
+        e = build(Env, case, reuse)
     except Exception as ex:
         return {'fmt': f'E:{type(ex).__name__}', 'at': []}
     out = {}
+    if reuse:
+        out['reuse'] = reuse
     # the encodings must not depend on what the object was used for before: on every other case the
     # IEnvGen (interpolation) encoding and an evaluation are requested first (cached formats)
     import zlib
